@@ -203,8 +203,17 @@ static Verdict residue(const std::string &at, const Snap &a, const Snap &b, bool
         return bad("heap-retained", at + std::to_string(b.lib_live_allocs - warm->lib_live_allocs) + " more live allocations made by the library (" + std::to_string(b.lib_live_bytes - warm->lib_live_bytes) + " bytes) than after the warm-up call");
     return ok();
 }
+// libc functions that keep their result or position in one static object (strtok, getpwuid, localtime, ttyname, getlogin, ...): the caller
+// may be in the middle of a strtok() walk or hold the pointer an earlier getpwuid() returned - a wrapped call that uses one of them
+// destroys that, which is residue in the calling process even though no descriptor or byte of heap is left behind
+Verdict libc_static_state(const RunResult &r) {
+    for (auto &e : r.hist) if (e.k == "nonreentrant" && e.opi >= 0)
+        return bad("libc-static-state-clobbered:" + e.s, "call #" + std::to_string(e.opi) + " uses " + e.s + "(), whose state is one static object shared with the calling program: what the caller had there (position of its own strtok walk, the record an earlier call returned) is gone after the wrapped call");
+    return ok();
+}
 static Verdict oracle_c16(const Plan &p, const RunResult &r) {
     if (g_variant[0] != 'a') return ok();
+    { Verdict ls = libc_static_state(r); if (ls.violated) return ls; }
     if (!r.app_damage.empty()) return bad("foreign-descriptor-closed", r.app_damage);
     if (p.extra.gets("scenario").compare(0, 8, "threads|") == 0) {   // descriptor tables and heap are shared between the threads: per call only what belongs to the calling thread is compared
         for (auto &cv : calls_of(p)) {
